@@ -456,7 +456,7 @@ def real_default_graph_rule(repo: Repo, rep: Report) -> None:
     rep.rule("C10.i-writes-target-real-default-graph",
              "no update evaluator (nor _graphOrDefault/_graphAll) mutates, or hands out for mutation, `ctx.graph` itself: with the default-graph-is-union "
              "switch on that is the union view of the dataset; the target of writes outside GRAPH is obtained through a selector that maps a "
-             "ConjunctiveGraph/Dataset to its default_context (`_defaultGraph(ctx)`, or the `type(ctx.graph) is Graph` test of evalModify)", floor=6)
+             "ConjunctiveGraph/Dataset to its default_context (`_defaultGraph(ctx)`; that the selector decides by isinstance and not by exact type is rule m)", floor=6)
     # selectors: functions that return ctx.dataset.default_context / g.default_context for dataset-typed ctx.graph
     selectors = set()
     for q, f in up.functions():
@@ -679,3 +679,455 @@ def run(repo: Repo, rep: Report) -> None:  # noqa: F811
     rep.ob("C10.l-each-operation-under-its-own-prologue", alg, "translateUpdate", "translatePrologue and the translation of the operation share one loop", same,
            "per-operation prologue" if same else
            "all prologues are folded before any operation is translated: `PREFIX v: <a> INSERT DATA { v:x ... } ; PREFIX v: <b> INSERT DATA { ... }` resolves the FIRST operation's v:x against <b>", node=tp[0])
+
+
+# ======================================================================================================================
+# rules m-s: structural conditions behind the repaired defects F110-F119 (each is quantified over every site of its kind)
+# ======================================================================================================================
+_run_base2 = run
+
+# keyword targets of CLEAR / DROP that a single graph can serve: it is the default graph of its own one-graph dataset
+SINGLE_GRAPH_TARGETS = {"DEFAULT": "the graph itself is the default graph", "ALL": "the default graph is all there is"}
+_TRAVERSERS = ("traverse", "_traverse", "_traverseAgg")
+
+
+def run(repo: Repo, rep: Report) -> None:  # noqa: F811
+    _run_base2(repo, rep)
+    from vlib import h_c10 as H
+
+    T = repo.typed
+    up = repo.mod("rdflib.plugins.sparql.update")
+    eu = repo.mod("rdflib.plugins.sparql.evalutils")
+    alg = repo.mod("rdflib.plugins.sparql.algebra")
+    sp = repo.mod("rdflib.plugins.sparql.sparql")
+    ev = repo.mod("rdflib.plugins.sparql.evaluate")
+    rep.extra["explanation"] = rep.extra.get("explanation", "") + (
+        " (m) single graph vs dataset is decided by isinstance, never by exact type; (n) CLEAR/DROP DEFAULT|ALL never reach the raising "
+        "QueryContext.dataset property on a context without a dataset; (o) a template triple with a literal subject or non-IRI predicate is skipped; "
+        "(p) inserted request templates pass through _fillTemplate and all parts of one instantiation share one fresh blank-node map; "
+        "(q) a graph term of the request names a graph only after instantiation and an IdentifiedNode test, raw only for operations whose "
+        "data the translator checks to be ground; (r) USING is handed to QueryContext as FROM is, only LOAD loads; (s) the WHERE of an update gets "
+        "every algebra pass a query pattern gets.")
+    evaluators = {q: f for q, f in up.functions() if q.startswith("eval") and "." not in q}
+    eup = evaluators.get("evalUpdate")
+    if eup is None:
+        raise AnalysisError("evalUpdate vanished")
+    # operation name of each evaluator, from the dispatch arms of evalUpdate
+    op_of: dict[str, str] = {}
+    for n in ast.walk(eup):
+        if isinstance(n, ast.If) and isinstance(n.test, ast.Compare) and norm(n.test.left).endswith(".name") and isinstance(n.test.ops[0], ast.Eq) \
+                and isinstance(n.test.comparators[0], ast.Constant):
+            for s in n.body:
+                for c in ast.walk(s):
+                    if isinstance(c, ast.Call) and isinstance(c.func, ast.Name) and c.func.id in evaluators:
+                        op_of[c.func.id] = n.test.comparators[0].value
+    if len(op_of) < 11:
+        raise AnalysisError("evalUpdate: expected 11 dispatch arms, found %s" % sorted(op_of))
+
+    def cls_full(mod, node: ast.AST) -> str | None:
+        r = T.ref(mod.name, node)
+        if r and r in T.classes:
+            return r
+        nm = node.id if isinstance(node, ast.Name) else node.attr if isinstance(node, ast.Attribute) else None
+        cands = [c for c in T.classes if c.rsplit(".", 1)[-1] == nm]
+        return cands[0] if len(cands) == 1 else None
+
+    def class_list(e: ast.AST) -> list[ast.AST]:
+        return list(e.elts) if isinstance(e, (ast.Tuple, ast.List, ast.Set)) else [e]
+
+    def ctx_typed(mod, e: ast.AST, fn: ast.FunctionDef) -> bool:
+        tf = T.type_of(mod.name, e)
+        if tf is not None and tf.items:
+            return any(it.endswith(".QueryContext") for it in tf.items)
+        return isinstance(e, ast.Name) and bool(fn.args.args) and e.id == fn.args.args[0].arg and "QueryContext" in norm(fn.args.args[0].annotation or "")
+
+    # ------------------------------------------------------------------ (m)  F110
+    rep.rule("C10.m-graph-kind-by-isinstance",
+             "the SPARQL engine tells a single graph from a dataset (and any other class with subclasses in the package from its siblings) by isinstance, never by "
+             "comparing type(x) / x.__class__ with the class: an instance of a subclass takes the other branch. `type(ctx.graph) is Graph` sends an instance of a "
+             "Graph subclass (class MyGraph(Graph)) down the dataset branch, where DELETE/INSERT ... WHERE raises for a missing dataset instead of updating the graph", floor=2)  # 3 on the pinned tree; one of them is a typing-only assert under TYPE_CHECKING
+    for mod in (up, sp, ev, eu):
+        for q, f in mod.functions():
+            for n in own_nodes(f):
+                if isinstance(n, ast.Call) and isinstance(n.func, ast.Name) and n.func.id == "isinstance" and len(n.args) == 2:
+                    fulls = [cls_full(mod, c) for c in class_list(n.args[1])]
+                    if any(fl and T.is_subclass(fl, "rdflib.graph.Graph") for fl in fulls):
+                        rep.ob("C10.m-graph-kind-by-isinstance", mod, q, n, True, "membership test: instances of subclasses follow their base class", node=n)
+                elif isinstance(n, ast.Compare):
+                    sides = [n.left] + list(n.comparators)
+                    exact = [s for s in sides if (isinstance(s, ast.Call) and isinstance(s.func, ast.Name) and s.func.id == "type" and len(s.args) == 1)
+                             or (isinstance(s, ast.Attribute) and s.attr == "__class__")]
+                    if not exact:
+                        continue
+                    for s in sides:
+                        if s in exact:
+                            continue
+                        for c in class_list(s):
+                            fl = cls_full(mod, c)
+                            if fl and len(T.subclasses(fl)) > 1:
+                                rep.ob("C10.m-graph-kind-by-isinstance", mod, q, n, False,
+                                       "exact-type test against %s, which has subclasses (%s): their instances are treated as not being a %s" % (
+                                           fl, ", ".join(sorted(x.rsplit(".", 1)[-1] for x in T.subclasses(fl) if x != fl)[:4]), fl.rsplit(".", 1)[-1]), node=n)
+
+    # ------------------------------------------------------------------ (n)  F111
+    rep.rule("C10.n-single-graph-targets-need-no-dataset",
+             "QueryContext.dataset raises when the update runs on a plain Graph. In the keyword dispatchers of the graph-management operations (a parameter compared with "
+             "\"DEFAULT\"/\"ALL\"/...) and in the single-target evaluators that call them (CLEAR, DROP), no read of that property is feasible when the context has no dataset and "
+             "the target is DEFAULT or ALL (branch feasibility from the fixed truth of `ctx._dataset is None` and of the keyword comparisons, short-circuit operands included): "
+             "DROP DEFAULT, DROP ALL and CLEAR ALL on a plain Graph empty it as CLEAR DEFAULT does", floor=6)
+    qc = sp.methods("QueryContext").get("dataset")
+    if qc is None or not any(isinstance(r, ast.Raise) and any(isinstance(t, ast.Compare) and norm(t.left).endswith("._dataset") for t, v in H.atoms(H.guard_facts(sp, qc, r)))
+                             for r in own_nodes(qc)):
+        raise AnalysisError("QueryContext.dataset no longer raises under a test of _dataset: rule C10.n has lost its anchor")
+    dispatchers: dict[str, tuple[str, set[str]]] = {}  # function -> (keyword parameter, keywords compared)
+    for q, f in up.functions():
+        if "." in q or len(f.args.args) < 2:
+            continue
+        for a in f.args.args[1:]:
+            kws = {c.comparators[0].value for c in own_nodes(f) if isinstance(c, ast.Compare) and isinstance(c.left, ast.Name) and c.left.id == a.arg and len(c.ops) == 1
+                   and isinstance(c.ops[0], (ast.Eq, ast.NotEq)) and isinstance(c.comparators[0], ast.Constant) and isinstance(c.comparators[0].value, str)}
+            if kws & set(SINGLE_GRAPH_TARGETS):
+                dispatchers[q] = (a.arg, kws)
+    if not dispatchers:
+        raise AnalysisError("update.py: no function dispatches on the DEFAULT/ALL target keywords")
+    scope: dict[str, set[str]] = {q: kws & set(SINGLE_GRAPH_TARGETS) for q, (_, kws) in dispatchers.items()}
+    for q, f in evaluators.items():
+        calls = [c for c in own_nodes(f) if isinstance(c, ast.Call) and isinstance(c.func, ast.Name) and c.func.id in dispatchers]
+        targets = {norm(c.args[1]) for c in calls if len(c.args) > 1}
+        if calls and len(targets) == 1:  # one target graph reference (ADD/MOVE/COPY have two: their source = target case is rule f)
+            scope[q] = set().union(*(scope[c.func.id] for c in calls))
+    changed = True
+    while changed:  # evaluators that delegate the whole operation to one in scope
+        changed = False
+        for q, f in evaluators.items():
+            for c in own_nodes(f):
+                if isinstance(c, ast.Call) and isinstance(c.func, ast.Name) and c.func.id in scope and c.func.id in evaluators and \
+                        [norm(a) for a in c.args] == [a.arg for a in f.args.args] and not scope[c.func.id] <= scope.get(q, set()):
+                    scope[q] = scope.get(q, set()) | scope[c.func.id]
+                    changed = True
+    rep.info["C10.n_scope"] = {q: sorted(k) for q, k in scope.items()}
+    for q in sorted(scope):
+        f = up.func(q)
+        rep.analysed("rdflib/plugins/sparql/update.py:" + q)
+        cp = f.args.args[0].arg
+        reads = [n for n in own_nodes(f) if isinstance(n, ast.Attribute) and n.attr == "dataset" and isinstance(n.ctx, ast.Load) and ctx_typed(up, n.value, f)]
+        for r in reads:
+            bad = []
+            for kw in sorted(scope[q]):
+                env: dict[str, bool | None] = {"%s._dataset is None" % cp: True, "%s._dataset is not None" % cp: False, "%s._dataset" % cp: False}
+                for c in own_nodes(f):
+                    if isinstance(c, ast.Compare) and len(c.ops) == 1 and isinstance(c.left, ast.Name) and q in dispatchers and c.left.id == dispatchers[q][0]:
+                        k = c.comparators[0]
+                        if isinstance(c.ops[0], (ast.Eq, ast.NotEq)) and isinstance(k, ast.Constant) and isinstance(k.value, str):
+                            env[norm(c)] = (k.value == kw) == isinstance(c.ops[0], ast.Eq)
+                        elif isinstance(c.ops[0], (ast.In, ast.NotIn)) and isinstance(k, (ast.Tuple, ast.List, ast.Set)) and all(isinstance(e, ast.Constant) for e in k.elts):
+                            env[norm(c)] = (kw in {e.value for e in k.elts}) == isinstance(c.ops[0], ast.In)
+                if H.feasible(up, f, r, env):
+                    bad.append(kw)
+            rep.ob("C10.n-single-graph-targets-need-no-dataset", up, q, "%s in `%s`" % (norm(r), norm(_stmt_of(up, r, f))[:70]), not bad,
+                   "not reached on a context without a dataset for the targets %s" % sorted(scope[q]) if not bad else
+                   "with the target %s on a plain Graph (ctx._dataset is None) this read of the raising property ctx.dataset is reached: the operation raises "
+                   "'operating currently on a single graph' instead of emptying the graph" % "/".join(bad), node=r)
+
+    # ------------------------------------------------------------------ (o)  F112
+    rep.rule("C10.o-illegal-terms-skipped",
+             "_fillTemplate (the one instantiator of CONSTRUCT / INSERT / DELETE templates) yields a triple only where its subject is known not to be a Literal and its "
+             "predicate is known to be a URIRef (isinstance facts that hold at the yield): `INSERT { ?o ?o ?o } WHERE { <s> <p> ?o }` with ?o bound to \"x\" must skip "
+             "the triple, not store a literal subject and predicate", floor=2)
+    ft = eu.func("_fillTemplate")
+    yields = [y for y in own_nodes(ft) if isinstance(y, ast.Yield) and isinstance(y.value, ast.Tuple) and len(y.value.elts) == 3]
+    if not yields:
+        raise AnalysisError("_fillTemplate yields no 3-tuple")
+
+    def sub_of(mod, cs: list[ast.AST], base: str) -> bool:
+        fl = [cls_full(mod, c) for c in cs]
+        return bool(fl) and all(x is not None and T.is_subclass(x, base) for x in fl)
+
+    def has_cls(mod, cs: list[ast.AST], full: str) -> bool:
+        return any(cls_full(mod, c) == full for c in cs)
+    for y in yields:
+        s_, p_, _o = [norm(e) for e in y.value.elts]
+        facts = H.isinstance_facts(eu, ft, y)
+        s_ok = any(subj == s_ and ((not truth and has_cls(eu, cs, "rdflib.term.Literal")) or (truth and sub_of(eu, cs, "rdflib.term.IdentifiedNode"))) for subj, cs, truth in facts)
+        p_ok = any(subj == p_ and ((truth and sub_of(eu, cs, "rdflib.term.URIRef")) or (not truth and has_cls(eu, cs, "rdflib.term.Literal") and has_cls(eu, cs, "rdflib.term.BNode")))
+                   for subj, cs, truth in facts)
+        rep.ob("C10.o-illegal-terms-skipped", eu, "_fillTemplate", "subject of %s" % norm(y), s_ok,
+               "known not to be a Literal" if s_ok else "the instantiated subject is emitted without a test that it is not a Literal: a template triple whose subject variable is bound to a literal is stored", node=y)
+        rep.ob("C10.o-illegal-terms-skipped", eu, "_fillTemplate", "predicate of %s" % norm(y), p_ok,
+               "known to be a URIRef" if p_ok else "the instantiated predicate is emitted without a test that it is a URIRef: a template triple whose predicate variable is bound to a literal or blank node is stored", node=y)
+
+    # ------------------------------------------------------------------ (p)  F113 F119
+    rep.rule("C10.p-one-bnode-map-per-instantiation",
+             "(1) an update evaluator never inserts triples of the parsed request as they are: they pass through _fillTemplate, which replaces blank node labels by fresh nodes "
+             "(`INSERT DATA { _:a <p> 1 }` sent twice inserts two nodes, not one node named 'a' twice); (2) when one instantiation of an INSERT template - one solution, or the one "
+             "ground instantiation of INSERT DATA - is filled in several parts (default-graph part, GRAPH blocks), every part is given the same blank-node map, made exactly once at "
+             "the top of that instantiation's scope: `INSERT { _:b <p> ?x . GRAPH <g> { _:b <q> ?x } }` uses ONE new node per solution in both graphs", floor=4)
+    params_ft = [a.arg for a in ft.args.args]
+    map_param = None
+    for i, a in enumerate(params_ft):
+        if i >= 2 and any(isinstance(n, ast.Subscript) and isinstance(n.value, ast.Name) and n.value.id == a for n in own_nodes(ft)):
+            map_param = a
+    for q, f in evaluators.items():
+        if len(f.args.args) < 2:
+            continue
+        du = H.DefUse(up, f, {f.args.args[1].arg})
+        groups: dict[int, list[tuple[ast.Call, ast.AST, bool]]] = {}
+        for n in own_nodes(f):
+            if _is_graph_mutation(repo, up.name, n) != "INS":
+                continue
+            if isinstance(n, ast.AugAssign):
+                val = n.value
+            elif isinstance(n, ast.Call) and n.func.attr in ("add", "addN", "__iadd__") and n.args:  # type: ignore[attr-defined]
+                val = n.args[0]
+            else:
+                continue
+            if isinstance(val, ast.Call) and norm(val.func) == "_fillTemplate":
+                scope_node, in_req_loop = f, False
+                for p in up.parents(val):
+                    if isinstance(p, (ast.For, ast.AsyncFor)):
+                        if du.rooted_in(p.iter, p.iter):
+                            in_req_loop = True
+                            continue
+                        scope_node = p
+                        break
+                    if p is f:
+                        break
+                groups.setdefault(id(scope_node), []).append((val, scope_node, in_req_loop))
+            elif du.rooted_in(val, val):
+                rep.ob("C10.p-one-bnode-map-per-instantiation", up, q, n, False,
+                       "triples of the request (%s) are inserted as parsed: a blank node label of the request text becomes the identifier of the stored node, so the same label in two "
+                       "requests (or in the data already there) denotes one node" % norm(val), node=n)
+        for calls in groups.values():
+            scope_node = calls[0][1]
+            several = len(calls) > 1 or any(c[2] for c in calls)
+            margs = []
+            for c, _, _ in calls:
+                m = None
+                if map_param is not None:
+                    pos = params_ft.index(map_param)
+                    if len(c.args) > pos:
+                        m = c.args[pos]
+                    for k in c.keywords:
+                        if k.arg == map_param:
+                            m = k.value
+                margs.append(m)
+            for (c, _, _), m in zip(calls, margs):
+                if not several:
+                    rep.ob("C10.p-one-bnode-map-per-instantiation", up, q, c, True, "the only part of its instantiation", node=c)
+                    continue
+                why = None
+                if map_param is None:
+                    why = "_fillTemplate has no parameter through which the parts of one template instantiation can share a blank-node map: each part makes its own nodes"
+                elif not isinstance(m, ast.Name):
+                    why = "this part of the template is filled without the blank-node map of its instantiation: the label it shares with the other parts gets a node of its own"
+                elif any(not isinstance(o, ast.Name) or o.id != m.id for o in margs):
+                    why = "the parts of one instantiation are given different blank-node maps"
+                else:
+                    bs = du.bindings(m.id)
+                    made = [n for n in own_nodes(f) if isinstance(n, (ast.Assign, ast.AnnAssign)) and norm(n.targets[0] if isinstance(n, ast.Assign) else n.target) == m.id]
+                    if len(bs) != 1 or bs[0][0] != "assign" or not isinstance(bs[0][1], (ast.Call, ast.Dict)) or len(made) != 1 or not any(s is made[0] for s in scope_node.body):  # type: ignore[attr-defined]
+                        why = "the blank-node map %s is not made exactly once, by a fresh construction, at the top of the scope of one instantiation (%s)" % (
+                            m.id, "the body of the loop over solutions" if scope_node is not f else "the operation")
+                rep.ob("C10.p-one-bnode-map-per-instantiation", up, q, c, why is None, why or "shares the one fresh map of its instantiation", node=c)
+
+    # ------------------------------------------------------------------ (q)  F114 F115 F118
+    rep.rule("C10.q-graph-term-instantiated-or-ground",
+             "a term taken from the parsed request names a graph (get_context) or is stored/removed as data only (i) after instantiation with the solution AND under a test that the "
+             "value is an IdentifiedNode - unbound gives get_context(None), a graph named by a new blank node; a literal gives a graph named by its text - unless the same term is the "
+             "GRAPH term of the pattern that produced the solution; or (ii) as it is, in an operation for which translateUpdate1 raises when a term or graph name is a Variable "
+             "(INSERT DATA / DELETE DATA). `DELETE WHERE { GRAPH ?g { ?s ?p ?o } }` must not look into a graph named by the Variable object ?g; `INSERT DATA { GRAPH ?g { ... } }` must be rejected", floor=8)
+    tu = alg.func("translateUpdate1")
+    ground: set[str] = set()
+    for r in [r for r in own_nodes(tu) if isinstance(r, ast.Raise)]:
+        fa = list(H.atoms(H.guard_facts(alg, tu, r)))
+        var_tests = [e for e, truth in fa if truth and any(isinstance(c, ast.Call) and isinstance(c.func, ast.Name) and c.func.id == "isinstance" and len(c.args) == 2
+                                                          and any(cls_full(alg, x) == "rdflib.term.Variable" for x in class_list(c.args[1])) for c in ast.walk(e))]
+        if not var_tests:
+            continue
+        names: set[str] | None = None
+        for e, truth in fa:  # innermost first
+            if truth and isinstance(e, ast.Compare) and norm(e.left).endswith(".name") and len(e.ops) == 1:
+                k = e.comparators[0]
+                if isinstance(e.ops[0], ast.In) and isinstance(k, (ast.Tuple, ast.List, ast.Set)):
+                    names = {x.value for x in k.elts if isinstance(x, ast.Constant)}
+                elif isinstance(e.ops[0], ast.Eq) and isinstance(k, ast.Constant):
+                    names = {k.value}
+                if names is not None:
+                    break
+        if not names:
+            continue
+        # the test must look at the terms of the triples and at the graph names: both results of translateQuads
+        pair = None
+        for n in own_nodes(tu):
+            if isinstance(n, ast.Assign) and isinstance(n.targets[0], ast.Tuple) and len(n.targets[0].elts) == 2 and isinstance(n.value, ast.Call) and norm(n.value.func) == "translateQuads" \
+                    and all(isinstance(e, ast.Name) for e in n.targets[0].elts):
+                facts_n = {norm(e) for e, t in H.atoms(H.guard_facts(alg, tu, n)) if t}
+                if any(norm(e) in facts_n for e, t in fa if t and norm(e.left if isinstance(e, ast.Compare) else e).endswith(".name")):
+                    pair = [e.id for e in n.targets[0].elts]
+        du_tu = H.DefUse(alg, tu, set())
+        seen_names: set[str] = set()
+        work = [x for e in var_tests for x in H._names(e)]
+        while work:
+            x = work.pop()
+            if x in seen_names:
+                continue
+            seen_names.add(x)
+            for kind, src, _ in du_tu.bindings(x):
+                work.extend(H._names(src.iter if kind in ("for", "comp") else src))  # type: ignore[attr-defined]
+        covers = pair is not None and set(pair) <= seen_names
+        rep.ob("C10.q-graph-term-instantiated-or-ground", alg, "translateUpdate1", "ground-data test for %s: %s" % (sorted(names), norm(var_tests[0])[:90]), covers,
+               "looks at the terms of the triples and at the graph names" if covers else
+               "the Variable test does not reach both results of translateQuads (%s): a variable as %s is not rejected" % (pair, "graph name or term"), node=r)
+        if covers:
+            ground |= names
+    rep.info["C10.q_ground_checked_operations"] = sorted(ground)
+    if not ground:
+        rep.ob("C10.q-graph-term-instantiated-or-ground", alg, "translateUpdate1", "a test that rejects Variables in ground data (INSERT DATA / DELETE DATA)", False,
+               "translateUpdate1 raises nowhere under an isinstance(..., Variable) test that covers the triples and graph names of an operation: `INSERT DATA { ?s <p> ?o }` is accepted", node=tu)
+    for q, f in evaluators.items():
+        if len(f.args.args) < 2 or q not in op_of:
+            continue
+        du = H.DefUse(up, f, {f.args.args[1].arg})
+        op = op_of[q]
+        graph_patterns = set()  # containers whose keys are evaluated as the GRAPH term of a pattern handed to evalPart
+        for c in own_nodes(f):
+            if isinstance(c, ast.Call) and norm(c.func) == "CompValue" and c.args and isinstance(c.args[0], ast.Constant) and c.args[0].value == "Graph":
+                term = [k.value for k in c.keywords if k.arg == "term"]
+                key = du.request_key(term[0], c) if term else None
+                if key is None:
+                    continue
+                holders = {norm(c)} | {norm(a.targets[0]) for a in own_nodes(f) if isinstance(a, ast.Assign) and a.value is c}
+                if any(isinstance(e, ast.Call) and norm(e.func) == "evalPart" and any(norm(a) in holders for a in e.args) for e in own_nodes(f)):
+                    graph_patterns.add(key)
+        for c in own_nodes(f):
+            if isinstance(c, ast.Call) and isinstance(c.func, ast.Attribute) and c.func.attr == "get_context" and len(c.args) == 1:
+                a = c.args[0]
+                key = du.request_key(a, c)
+                look = du.solution_lookup(a, c) if key is None else None
+                if key is not None:
+                    ok = op in ground
+                    rep.ob("C10.q-graph-term-instantiated-or-ground", up, q, c, ok,
+                           "%s data is checked to be ground by translateUpdate1" % op if ok else
+                           "the graph term of the request (a key of %s) names the graph as it is, but translateUpdate1 does not reject a Variable there for %s: the operation reads/"
+                           "writes a graph named by the Variable object" % (key, op), node=c)
+                elif look is not None:
+                    subj = {norm(a), norm(look[1])}
+                    facts = H.isinstance_facts(up, f, c)
+                    nn = H.not_none_facts(up, f, c)
+                    guarded = any(s in subj and ((truth and sub_of(up, cs, "rdflib.term.IdentifiedNode")) or
+                                                 (not truth and has_cls(up, cs, "rdflib.term.Literal") and (subj & nn))) for s, cs, truth in facts)
+                    bound_by_pattern = look[0] in graph_patterns
+                    ok = guarded or bound_by_pattern
+                    rep.ob("C10.q-graph-term-instantiated-or-ground", up, q, c, ok,
+                           ("under a test that the instantiated graph term is an IdentifiedNode" if guarded else "the term is the GRAPH term of the pattern that produced the solution: bound to a graph name") if ok else
+                           "the instantiated graph term %s names the graph without a test that it is an IdentifiedNode: unbound -> get_context(None) writes to a graph named by a new "
+                           "blank node, a literal -> a graph named by its text; the GRAPH block must be skipped" % norm(look[1]), node=c)
+        for n in own_nodes(f):
+            k = _is_graph_mutation(repo, up.name, n)
+            if not k:
+                continue
+            if isinstance(n, ast.AugAssign):
+                val = n.value
+            elif isinstance(n, ast.Call) and n.func.attr in ("add", "addN", "remove", "__iadd__", "__isub__") and n.args:  # type: ignore[attr-defined]
+                val = n.args[0]
+            else:
+                continue
+            if isinstance(val, ast.Call) or not du.rooted_in(val, val):
+                continue
+            ok = op in ground
+            rep.ob("C10.q-graph-term-instantiated-or-ground", up, q, n, ok,
+                   "%s data is checked to be ground by translateUpdate1" % op if ok else
+                   "triples of the request (%s) are %s as they are, but translateUpdate1 does not reject variables for %s: Variable objects reach the store" % (
+                       norm(val), "removed" if k == "DEL" else "stored", op), node=n)
+
+    # ------------------------------------------------------------------ (r)  F116
+    rep.rule("C10.r-using-is-a-dataset-clause",
+             "USING / USING NAMED are interpreted by the code that interprets FROM / FROM NAMED: the update evaluator hands `u.using` to QueryContext(datasetClause=...) as evalQuery "
+             "hands the query's clause, and uses it otherwise only as a truth value; QueryContext.load (which fetches a document) is called by the LOAD evaluator only. "
+             "`DELETE { ?s ?p ?o } USING <g1> WHERE { GRAPH <g2> { ?s ?p ?o } }` must not see <g2>, and <g1> is read from the store, not from the network", floor=7)
+    eq = ev.func("evalQuery")
+    sib = [c for c in own_nodes(eq) if isinstance(c, ast.Call) and norm(c.func) == "QueryContext" and any(k.arg == "datasetClause" for k in c.keywords)]
+    if not sib:
+        raise AnalysisError("evalQuery no longer passes datasetClause to QueryContext: the sibling of rule C10.r vanished")
+    rep.ob("C10.r-using-is-a-dataset-clause", ev, "evalQuery", sib[0], True, "FROM / FROM NAMED: the reference reading of a dataset clause", node=sib[0])
+    for q, f in evaluators.items():
+        for c in own_nodes(f):
+            if isinstance(c, ast.Call) and isinstance(c.func, ast.Attribute) and c.func.attr == "load" and ctx_typed(up, c.func.value, f):
+                ok = op_of.get(q) == "Load"
+                rep.ob("C10.r-using-is-a-dataset-clause", up, q, c, ok, "LOAD" if ok else
+                       "%s fetches a document into the context: only LOAD reads from outside the store; a dataset clause selects among the graphs the store has" % q, node=c)
+        if len(f.args.args) < 2:
+            continue
+        un = f.args.args[1].arg
+        uses = [n for n in own_nodes(f) if isinstance(n, ast.Attribute) and n.attr == "using" and isinstance(n.value, ast.Name) and n.value.id == un]
+        handed = 0
+        for n in uses:
+            child: ast.AST = n
+            kind = None
+            for p in up.parents(n):
+                if isinstance(p, ast.BoolOp) or (isinstance(p, ast.UnaryOp) and isinstance(p.op, ast.Not)):
+                    child = p
+                    continue
+                if isinstance(p, (ast.If, ast.While, ast.IfExp)) and p.test is child:
+                    kind = "truth"
+                elif isinstance(p, ast.keyword) and p.arg == "datasetClause" and child is n:
+                    call = up.parent.get(id(p))
+                    if isinstance(call, ast.Call) and norm(call.func) == "QueryContext":
+                        kind = "dataset"
+                        handed += 1
+                break
+            rep.ob("C10.r-using-is-a-dataset-clause", up, q, "%s in `%s`" % (norm(n), norm(_stmt_of(up, n, f))[:70]), kind is not None,
+                   {"truth": "presence test", "dataset": "handed to QueryContext as the dataset clause"}.get(kind or "", "") if kind else
+                   "the USING clauses are interpreted here by hand instead of being handed to QueryContext(datasetClause=...): graphs not listed stay visible to GRAPH patterns "
+                   "and listed graphs are loaded instead of read from the store", node=n)
+        if uses and not handed:
+            rep.ob("C10.r-using-is-a-dataset-clause", up, q, "QueryContext(..., datasetClause=%s.using)" % un, False,
+                   "the USING clauses never reach QueryContext as a dataset clause", node=f)
+
+    # ------------------------------------------------------------------ (s)  F117
+    rep.rule("C10.s-where-processed-like-a-query-pattern",
+             "every algebra pass translateQuery applies (functions handed to traverse / _traverse / _traverseAgg) is also applied to the update: to the whole operation in "
+             "translateUpdate or to the WHERE pattern in translateUpdate1. Without `simplify` / `analyse` / `_addVars` a Join with the empty BGP stays and no join is lazy, so in "
+             "`INSERT { ... } WHERE { GRAPH ?g { ?s ?p ?o OPTIONAL { ... } } }` the inner pattern is not evaluated in ?g for every solution", floor=4)
+
+    def passes(fn: ast.FunctionDef, only_where: bool = False) -> dict[str, ast.Call]:
+        out: dict[str, ast.Call] = {}
+        for c in own_nodes(fn):
+            if not (isinstance(c, ast.Call) and isinstance(c.func, ast.Name) and c.func.id in _TRAVERSERS and c.args):
+                continue
+            if only_where and not any((isinstance(x, ast.Attribute) and x.attr == "where") or (isinstance(x, ast.Subscript) and isinstance(x.slice, ast.Constant) and x.slice.value == "where")
+                                      for x in ast.walk(c.args[0])):
+                continue
+            for v in list(c.args[1:]) + [k.value for k in c.keywords]:
+                if isinstance(v, ast.Call) and norm(v.func).endswith("partial") and v.args:
+                    v = v.args[0]
+                if isinstance(v, ast.Name) and alg.has(v.id):
+                    out[v.id] = c
+        return out
+    tq_ = alg.func("translateQuery")
+    qpasses = passes(tq_)
+    if len(qpasses) < 3:
+        raise AnalysisError("translateQuery: expected >= 3 algebra passes, found %s" % sorted(qpasses))
+    upasses = dict(passes(alg.func("translateUpdate")))
+    upasses.update(passes(tu, only_where=True))
+    for v in sorted(qpasses):
+        ok = v in upasses
+        rep.ob("C10.s-where-processed-like-a-query-pattern", alg, "translateUpdate1", "pass %s (translateQuery: %s)" % (v, norm(qpasses[v])[:60]), ok,
+               "applied: %s" % norm(upasses[v])[:70] if ok else
+               "translateQuery runs %s over the algebra, the translation of an update never does: the WHERE pattern of DELETE/INSERT is evaluated in a form no query pattern has" % v, node=tu)
+
+
+def _stmt_of(mod, node: ast.AST, fn: ast.AST) -> ast.AST:
+    """the head of the statement that evaluates node (for readable construct texts): test of an if/while, else the statement"""
+    child = node
+    for p in mod.parents(node):
+        if isinstance(p, (ast.If, ast.While)) and child is p.test:
+            return p.test
+        if isinstance(p, (ast.For, ast.AsyncFor)) and child is p.iter:
+            return p.iter
+        if isinstance(p, ast.stmt) and not isinstance(p, (ast.If, ast.While, ast.For, ast.AsyncFor, ast.With, ast.Try)):
+            return p
+        if p is fn:
+            break
+        child = p
+    return node
